@@ -1131,8 +1131,24 @@ F3_ANY = [("/./", "wild"), ("/[^x]/", "inv"), ("/\\W/", "W"), ("/\\D/", "D"), ("
 def gen_f3(rng):
     r = rng
     shape = r.choice(("records", "sep", "endelse", "tryend", "tryend", "waitend", "waitend", "endopt", "endopt", "yieldend", "yieldend",
-                      "trytail", "trytail"))
+                      "trytail", "trytail", "endbreak", "endbreak"))
     spec = {"family": "F3", "shape": shape}
+    if shape == "endbreak":
+        # a loop that is left through a *conditional* break (or finish) in its `end` clause: end() completes the program
+        # only when the condition holds for the bytes seen so far; otherwise the clause's other actions run and it fails
+        k = r.choice((0, 1, 2))
+        spec["k"] = k
+        spec["how"] = r.choice(("break", "break", "finish", "breakelse"))
+        lo = r.choice((97, 103, 109))
+        spec["lo"] = lo
+        leave = {"break": "if n > %d { break lo; }" % k, "finish": "if n > %d { finish; }" % k,
+                 "breakelse": "if n > %d { break lo; } else { b = true; }" % k}[spec["how"]]
+        L = ["out int{size 2} n = 0;", "out bool b = false;", "hook he;", "", "parser {", "    loop lo {", "        case {",
+             "            /[%s-%s]/ -> { n = [n + 1]; }" % (chr(lo), chr(lo + 5)),
+             "            end -> { he(); %s }" % leave, "        }", "    }", "}"]
+        spec["source"] = "\n".join(L) + "\n"
+        spec["need"] = ["-feof-support"]
+        return spec
     if shape == "trytail":
         # a try block as the last statement whose body can stop early, with an action-only handler:
         # end() in the accept state inside the try must say DONE, not run the handler
@@ -1204,6 +1220,9 @@ def gen_f3(rng):
 
 def f3_inputs(rng, spec, count):
     res = []
+    if spec["shape"] == "endbreak":
+        lo = spec["lo"]
+        return [b"", bytes([lo]), bytes([lo, lo + 1]), bytes([lo + 2, lo, lo + 5, lo + 1]), bytes([lo, 33]), bytes([lo, lo, lo, lo, lo + 3])]
     if spec["shape"] == "trytail":
         p_, a_ = bytes(spec["pre"]), bytes(spec["a"])
         t = b"#" if spec["tailkind"] == "optional" else b"42"
@@ -1281,6 +1300,15 @@ def check_f3(spec, data, canon, flags):
         code = group[-1].code
         hooks = [e[0] for c in group for e in c.events]
         snap = group[-1].snap
+        if spec["shape"] == "endbreak":
+            lo = spec["lo"]
+            if all(lo <= c <= lo + 5 for c in pre):
+                want = "DONE" if len(pre) > spec["k"] else "FAIL"
+                if code != want or hooks[:1] != ["he"]:
+                    F("end-clause-conditional-leave", "end() after %d loop bytes (the end clause leaves the loop iff n > %d): code %s hooks %s (expected %s, [he])" % (
+                        len(pre), spec["k"], code, hooks, want))
+                    return out
+            continue
         if spec["shape"] == "trytail":
             p_, a_ = bytes(spec["pre"]), bytes(spec["a"])
             kval = [x.split("=")[1] for x in snap.split(";") if x.startswith("k=")]
